@@ -47,6 +47,7 @@ def gen_case(seed, promote=False):
         if x < 0.80: return f"set {c} {xs(gg(c))} {js([r.choice(PATS) for _ in range(r.randint(0, 2))])}"
         if x < 0.90: return f"set {c} {xs(lw(c))} {js([{'key': r.choice([f'w/{c}', f'lw{c}/x', f'g/lw{c}']), 'value': val()} for _ in range(r.randint(0, 2))])}"
         if x < 0.93: return f"set {c} {xs(gg(r.randint(1, nclients)))} {js(['a/#'])}"          # somebody else's registration: refused
+        if x < 0.96: return f"del {c} {xs(r.choice([gg(c), lw(c)]))}"                          # a registration withdrawn by deleting its key: the client stays connected
         if len(connected) > 0:
             connected.discard(c); return f"disc {c}"
         return f"set {c} {xs('a')} {js(1)}"
@@ -61,7 +62,7 @@ def gen_case(seed, promote=False):
         if i < n:
             ops.append(client_op())
             if followers and r.random() < 0.1:
-                ops.append(f"fwrite {r.choice(followers)} {r.choice(['set', 'del', 'pdel', 'publish', 'get'])} {xs(r.choice(['a', 'a/b', 'b', 'q']))}")
+                ops.append(f"fwrite {r.choice(followers)} {r.choice(['set', 'del', 'pdel', 'publish', 'get', 'import'])} {xs(r.choice(['a', 'a/b', 'b', 'q']))}")
             if followers and r.random() < 0.12:
                 ops += ["sync", "dump leader"] + [f"dump {f}" for f in followers]
     ops += ["sync", "dump leader"] + [f"dump {f}" for f in followers]
@@ -124,6 +125,16 @@ def run(v, tier, seed, prop=ID, promote=False, oracle=None):
     if not promote:
         cases.append(("F10b-cas-import", ["leader", "conn 1", "join 1", "import " + xs(json.dumps({"data": {"t": {"k": {"v": {"Cas": [1, 7]}}, "p": {"v": 2}}}})), "sync", "dump leader", "dump 1"]))
         cases.append(("F25-bad-import", ["leader", "conn 1", "join 1", "import " + xs(json.dumps({"t": {"k": {"v": 1}}})), "import " + xs("not json"), f"set 1 {xs('a')} {js(1)}", "sync", "dump leader", "dump 1"]))
+    # a registration withdrawn by its (still connected) client: the follower must forget it too -- a promoted follower applies what it holds
+    cases.append(("withdrawn-registration", ["leader", "conn 1", "conn 2", "join 1", f"set 1 {xs(gg(1))} {js(['jobs/#'])}", f"set 1 {xs(lw(1))} {js([{'key': 'w/1', 'value': 'bye'}])}",
+                                              f"set 2 {xs(gg(2))} {js(['g/#'])}", f"set 2 {xs('jobs/1')} {js('running')}", f"set 2 {xs('g/x')} {js(1)}", "sync", "dump leader", "dump 1",
+                                              f"del 1 {xs(gg(1))}", f"del 1 {xs(lw(1))}", "sync", "dump leader", "dump 1", "join 2", "sync", "dump leader", "dump 1", "dump 2"]
+                  + (["promote 1", "dump leader"] if promote else [])))
+    # every kind of write the REST interface of a follower offers, on a key the leader holds and on a new one: each refused,
+    # follower and leader still equal afterwards
+    cases.append(("follower-refuses-every-write", ["leader", "conn 1", "join 1", f"set 1 {xs('app/x')} {js(2)}", "sync"]
+                  + [f"fwrite 1 {k} {xs(key)}" for k in ("set", "del", "pdel", "publish", "import") for key in ("app/x", "direct/new")]
+                  + ["sync", "dump leader", "dump 1"] + (["promote 1", "dump leader"] if promote else [])))
     n = (24 if tier == "quick" else 400)
     cases += [(f"r{i}", gen_case(seed * 49979687 + i + (10**6 if promote else 0), promote)) for i in range(n)]
     cpath = os.path.join(work, "cases.txt")
